@@ -57,7 +57,7 @@ impl Prop for C17 {
     }
     fn rule(&self) -> &'static str {
         "all documents of up to 2 (quick) / 3 (thorough) lines from 14 line templates, plus four fixed legends with 2-3 entries (box parts, text, quoted text, CJK, arrow, empty line, legend header, \
-         three legend entries incl. a multi-line one) x {LF, CRLF} x a trailing blank from {none, space, TAB, space+TAB} per line x 0..5 trailing blank lines; \
+         three legend entries incl. a multi-line one) x {LF, CRLF} x a trailing blank from {none, space, TAB, space+TAB} per line x 0..5 trailing blank lines or trailing lines holding only blanks; \
          each variant's parsed document must equal the LF/no-blank reference (style text modulo white-space runs). \
          distinct_nontrivial = distinct reference outputs (skeleton + style length)"
     }
@@ -119,10 +119,21 @@ impl Prop for C17 {
                     body.push_str(BLANKS[c % BLANKS.len()]);
                     c /= BLANKS.len();
                 }
-                for trailing in 0..=5 {
+                for trailing in 0..=8 {
                     let mut v = body.clone();
-                    for _ in 0..trailing {
+                    if trailing <= 5 {
+                        for _ in 0..trailing {
+                            v.push_str(eol);
+                        }
+                    } else {
+                        // trailing lines that hold only blanks
                         v.push_str(eol);
+                        v.push_str(["  ", "\t", " \t "][trailing - 6]);
+                        if trailing == 8 {
+                            v.push_str(eol);
+                            v.push_str(" ");
+                            v.push_str(eol);
+                        }
                     }
                     if v == reference {
                         continue;
